@@ -20,3 +20,12 @@ pub proof fn axiom_vec16_len_limit(v: &Vec<u16>)
 // <Arc<T> as AsRef<T>>::as_ref: a reference to the shared value
 pub assume_specification<T: std::marker::MetaSized + ?Sized, A: std::alloc::Allocator> [<std::sync::Arc<T, A> as AsRef<T>>::as_ref] (a: &std::sync::Arc<T, A>) -> (r: &T)
     ensures r == &**a;
+// Arc::get_mut ("Returns a mutable reference into the given Arc, if there are no other Arc or Weak pointers to the same
+// allocation. Returns None otherwise"): whether other pointers exist is not visible in a value's contents, so the result may
+// always be None (logged //@subopt wrapper, used only if the code calls it)
+#[verifier::external_body]
+pub fn vx_arc_get_mut<T>(this: &mut std::sync::Arc<T>) -> (r: Option<&mut T>)
+    ensures r is Some ==> *r->Some_0 == **old(this) && **final(this) == *final(r->Some_0),
+        r is None ==> **final(this) == **old(this),
+    no_unwind
+{ std::sync::Arc::get_mut(this) }
